@@ -7,7 +7,7 @@ from fractions import Fraction
 import numpy as np
 
 from vf import matprob, oracles
-from vf.util import GR, Violation, adj, gr_array, gr_eye, gr_zeros, jsonable, rng_for
+from vf.util import GR, Inconclusive, Violation, adj, gr_array, gr_eye, gr_zeros, jsonable, rng_for
 
 ID = "C15"
 LEVEL = "exploration"
@@ -190,6 +190,20 @@ def run_case(spec):
                     want = shx(n, A[n]) if p.exact else A[n] + sf * np.eye(p.N)
                 _close(p, B[n], want, f"shift H_0 by {sf}: {name}_{n}", scale=mag + abs(sf))
                 compared += 1
+    elif rel == "scale" and not p.exact and spec["design"] in ("indices", "blocks") and not p.notes.get("int_h0") and not p.notes.get("units") and not p.notes.get("user_atol") and rng.random() < 0.35:
+        # extreme scales (other units): the whole Hamiltonian times 2^-k, k in +-[30, 63], with the `atol` option
+        # scaled alike; H_tilde converted back must agree BITWISE, U and U^dagger/U_inv are unchanged bitwise
+        kexp = int(rng.integers(30, 64)) * int(rng.choice([-1, 1]))
+        q = matprob.derive(p, terms_f={n: M.copy() for n, M in p.terms_f.items()}, terms_x=None, units_exp=kexp, user_atol=0.0)
+        if not q.notes.get("units"):
+            raise Inconclusive("the scaled twin was not encoded with units")
+        got = _run(q)
+        for k, (name, A, B) in enumerate(zip(names, base, got)):
+            for n in p.orders:
+                _close(p, B[n], A[n], f"scale by 2^{-kexp} (atol scaled alike): {name}_{n}", bitwise=True, scale=mag)
+                compared += 1
+        counters["bitwise_scale_comparisons"] += compared
+        counters["extreme_scale_cases"] += 1
     elif rel == "scale":
         if p.exact:
             sc = GR(Fraction(int(rng.choice([2, 3, 5, 7])), int(rng.choice([1, 2, 3, 4]))))
@@ -284,7 +298,7 @@ def finalize(c, tier, evaluations, distinct):
         if c.get(f"relation_{r}", 0) < 40:
             reasons.append(f"relation {r} exercised only {c.get('relation_' + r, 0)} times")
     for k, v in dict(hermitian=100, nonhermitian=80, bitwise_scale_comparisons=300, elements_compared=5000, degenerate_groups_rotated=40,
-                     vtype_sympy=30, vtype_sparse=30, sel_mask=30, sel_fd_some=20).items():
+                     vtype_sympy=30, vtype_sparse=30, sel_mask=30, sel_fd_some=20, extreme_scale_cases=5).items():
         if c.get(k, 0) < v:
             reasons.append(f"{k} observed only {c.get(k, 0)} (< {v})")
     return reasons
